@@ -106,7 +106,7 @@ AtDepression(e, p, ang, side) ==
         /\ Show(<<"RES", "c03", l, p, f - Sin(0 - ang), loc.sinalt - Sin(0 - ang)>>)
         /\ AbsI(f - Sin(0 - ang)) <= Tol042(ang)
         /\ AbsI(loc.sinalt - Sin(0 - ang)) <= Tol515(ang)
-        /\ side * Rel(e.r, p) > 0
+        /\ side * Rel(e.r, p) > 0 \/ AbsI(Rel(e.r, p)) >= 43199       \* at exactly 12 h from Dhuhr the side is undefined
 C03Call ==
     /\ Is("c03") /\ DateOk(Ev) /\ Ev.out = "ret7" /\ Ok(Ev.r, Dhuhr)
     /\ AtDepression(Ev, Fajr, Ev.p.fa, -1)
